@@ -1,17 +1,20 @@
-import RedisGoModel.Raft.RLC
+import RedisGoModel.Raft.RLJ
+import RedisGoModel.Raft.RHCRun
 
-/-! C15 Stage D, step 5: **every call of the executable config-aware handler `RHC.handleJ` is a finite chain of L1C steps**
-    (`handleJ_in_StepJ`, the analogue of `RS.handle_in_Step1`), hence every run of the handler is covered by a reachable L1C state
-    (`runJ_covered`), hence — through `simJ` and `C15_conf_holds` — **`runJ_safe`**: election safety, log matching, leader completeness
-    and state-machine safety for every run of `handleJ`, any cluster size, any initial configuration, any schedule of messages, ticks,
-    proposals, membership changes (add / remove / add-learner / promote), applications and restarts.
+/-! C15 Stage D, step 7: **every call of the executable joint-configuration handler `RHJ.handleJ` is a finite chain of L1J steps**
+    (`handleJ_in_StepJ`), hence every run of the handler is covered by a reachable L1J state (`runJ_covered`), hence — through `simJ`
+    and `C15_joint_holds` — **`runJ_safe`**: election safety, log matching, leader completeness and state-machine safety for every
+    run of `handleJ`, any cluster size, any initial configuration, any schedule of messages, ticks, proposals, membership changes of
+    every kind etcd has (single changes, `EnterJoint` explicit / auto-leave with any change list, `LeaveJoint`, the leader's automatic
+    leave), applications, `Advance`s and restarts.
 
-    One input is excluded by `enabledJ` (see `RunJ`): a MsgSnap that the receiver ignores because it is not in the snapshot's `ConfState`
-    while its own commit index is still 0.  etcd answers it with MsgAppResp(index = committed), which for such a node acknowledges the
-    empty prefix; the abstract protocol has no step that records an acknowledgement of index 0 (harmless — it moves no `match[]` — but
-    not derivable), so runs containing that input are outside the theorem. -/
+    One input is excluded by `enabledJ` (see `RunJ`), exactly as for `RHC.runC_safe`: a MsgSnap that the receiver ignores because it is
+    in none of `Voters` / `Learners` / `VotersOutgoing` of the snapshot's `ConfState` while its own commit index is still 0 (etcd
+    answers with MsgAppResp(index = committed = 0); the abstract protocol has no step that records an acknowledgement of index 0). -/
 namespace RHJ
-open RS RSC
+open RS RSJ
+open RSC (nid nidsOf CSys updN updN_same updN_other)
+open RHC (NodeC Step1L updN_self updN_updN)
 
 variable {N : Nat}
 
@@ -29,9 +32,6 @@ theorem StepsJ.one {c0 : RQJ.Config} {a b : SysJ N} (st : StepJ c0 a b) : StepsJ
 /-- node `i` replaced by `x`, the network by `net'` -/
 def SysJ.put (s : SysJ N) (i : Fin N) (x : NodeC N) (net' : Msg1 N → Prop) : SysJ N :=
   ⟨⟨upd1 s.l1.nodes i x.n, net'⟩, updN s.applied i x.applied, updN s.pend i x.pend⟩
-
-theorem updN_updN (f : Fin N → Nat) (i : Fin N) (a b : Nat) : updN (updN f i a) i b = updN f i b := by
-  funext j; by_cases hj : j = i <;> simp [updN, hj]
 
 @[simp] theorem put_node (s : SysJ N) (i : Fin N) (x : NodeC N) (net' : Msg1 N → Prop) : (s.put i x net').node i = x := by
   simp [SysJ.put, SysJ.node]
@@ -291,23 +291,35 @@ theorem outcomeJ_same (c0 : RQJ.Config) (s : SysJ N) (i : Fin N) (m : Msg1 N) (h
             exact this
           simpa using this
 
-/-- a proposal message: one `propose` step per payload -/
-theorem outcomeJ_props (c0 : RQJ.Config) (i : Fin N) : ∀ (vs : List Nat) (s : SysJ N), (s.l1.nodes i).role = .leader →
+theorem cfgAt_append (c0 : RQJ.Config) (l : Log) (e : Entry) {a : Nat} (h : a ≤ l.length) : cfgAt c0 (l ++ [e]) a = cfgAt c0 l a :=
+  cfgAt_congr c0 (by rw [List.take_append_of_le_length h])
+
+/-- a proposal message: one `propose` step per payload (the configuration, hence the `joint` flag, does not change inside it: the
+    appended entries lie above `applied`) -/
+theorem outcomeJ_props (c0 : RQJ.Config) (i : Fin N) (J : Bool) : ∀ (vs : List Nat) (s : SysJ N), (s.l1.nodes i).role = .leader →
+    s.applied i ≤ (s.l1.nodes i).log.length → RQJ.joint (s.cfg c0 i) = J →
     OutcomeJ c0 s i ⟨{ (s.l1.nodes i) with log := (s.l1.nodes i).log ++
-        (gateSeq (s.applied i) (s.pend i) (s.l1.nodes i).log.length vs).1.map fun v => ⟨(s.l1.nodes i).term, v⟩ },
-      s.applied i, (gateSeq (s.applied i) (s.pend i) (s.l1.nodes i).log.length vs).2⟩ [] := by
+        (gateSeq (s.applied i) J (s.pend i) (s.l1.nodes i).log.length vs).1.map fun v => ⟨(s.l1.nodes i).term, v⟩ },
+      s.applied i, (gateSeq (s.applied i) J (s.pend i) (s.l1.nodes i).log.length vs).2⟩ [] := by
   intro vs
   induction vs with
-  | nil => intro s _; exact OutcomeJ.stay' (by simp [gateSeq, SysJ.node])
+  | nil => intro s _ _ _; exact OutcomeJ.stay' (by simp [gateSeq, SysJ.node])
   | cons v vs ih =>
-    intro s hl
-    have st : OutcomeJ c0 s i ⟨proposeN (s.l1.nodes i) (gateB (s.applied i) (s.pend i) v), s.applied i,
-        if isConfData (gateB (s.applied i) (s.pend i) v) then (s.l1.nodes i).log.length + 1 else s.pend i⟩ [] :=
-      outcomeJ_of_step (StepJ.propose s i v hl) (by simp [cProp, SysJ.put, updN_self]) (fun _ h => h) (fun _ h => by cases h)
+    intro s hl hlen hJ
+    have hg : s.gate c0 i v = gateJ (s.applied i) (s.pend i) J v := by unfold SysJ.gate; rw [hJ]
+    have st : OutcomeJ c0 s i ⟨proposeN (s.l1.nodes i) (gateJ (s.applied i) (s.pend i) J v), s.applied i,
+        if isConfData (gateJ (s.applied i) (s.pend i) J v) then (s.l1.nodes i).log.length + 1 else s.pend i⟩ [] :=
+      outcomeJ_of_step (StepJ.propose s i v hl) (by simp [cProp, hg, SysJ.put, updN_self]) (fun _ h => h) (fun _ h => by cases h)
     refine OutcomeJ.chain0 st fun net1 _ => ?_
-    have := ih (s.put i ⟨proposeN (s.l1.nodes i) (gateB (s.applied i) (s.pend i) v), s.applied i,
-        if isConfData (gateB (s.applied i) (s.pend i) v) then (s.l1.nodes i).log.length + 1 else s.pend i⟩ net1)
+    have := ih (s.put i ⟨proposeN (s.l1.nodes i) (gateJ (s.applied i) (s.pend i) J v), s.applied i,
+        if isConfData (gateJ (s.applied i) (s.pend i) J v) then (s.l1.nodes i).log.length + 1 else s.pend i⟩ net1)
       (by rw [put_l1_node]; simpa [proposeN] using hl)
+      (by rw [put_l1_node, put_applied]; simp [proposeN]; omega)
+      (by
+        rw [cfg_put]
+        show RQJ.joint (cfgAt c0 (proposeN (s.l1.nodes i) _).log (s.applied i)) = J
+        simp only [proposeN]
+        rw [cfgAt_append _ _ _ hlen]; exact hJ)
     rw [put_l1_node, put_applied, put_pend] at this
     simpa [proposeN, gateSeq_cons, List.append_assoc] using this
 
@@ -382,13 +394,21 @@ theorem snapOK_bump {c0 : RQJ.Config} {i : Fin N} {n : Node1 N} {a p p' t : Nat}
 
 /-- **handler ⊆ L1C**: every call of `handleJ` is a finite chain of L1C steps ending in the handler's node and having sent its responses -/
 theorem handleJ_outcome (c0 : RQJ.Config) (s : SysJ N) (i : Fin N) (inp : InputJ N) (hen : enabledJ c0 s i inp)
-    (happ : s.applied i ≤ (s.l1.nodes i).commit) :
+    (happ : s.applied i ≤ (s.l1.nodes i).commit) (hcl : (s.l1.nodes i).commit ≤ (s.l1.nodes i).log.length) :
     OutcomeJ c0 s i (handleJ c0 i ⟨s.l1.nodes i, s.applied i, s.pend i⟩ inp).1 (handleJ c0 i ⟨s.l1.nodes i, s.applied i, s.pend i⟩ inp).2 := by
   cases inp with
   | prop vs =>
     simp only [handleJ]
     by_cases h : (s.l1.nodes i).role = Role.leader ∧ hasProg (cfgOf c0 ⟨s.l1.nodes i, s.applied i, s.pend i⟩) i = true
-    · rw [if_pos h]; exact outcomeJ_props c0 i vs s h.1
+    · rw [if_pos h]; exact outcomeJ_props c0 i _ vs s h.1 (by omega) rfl
+    · rw [if_neg h]; exact OutcomeJ.stay' rfl
+  | advance o =>
+    simp only [handleJ]
+    by_cases h : (s.l1.nodes i).role = Role.leader ∧ (cfgOf c0 ⟨s.l1.nodes i, s.applied i, s.pend i⟩).autoLeave = true ∧
+        o ≤ s.pend i ∧ s.pend i ≤ s.applied i
+    · rw [if_pos h]
+      exact outcomeJ_of_step (StepJ.autoLeave s i h.1 h.2.1 h.2.2.2) (by simp [cLeave, SysJ.put, updN_self])
+        (fun _ h => h) (fun _ h => by cases h)
     · rw [if_neg h]; exact OutcomeJ.stay' rfl
   | applyTo k => exact outcomeJ_applyFold c0 i _ s
   | beat => exact OutcomeJ.stay' rfl
@@ -516,10 +536,10 @@ theorem sendJ_many (c0 : RQJ.Config) (i : Fin N) : ∀ (outs : List (Msg1 N)) (s
 /-- **handler ⊆ L1C**: the node after a call of `handleJ`, together with every message the implementation may have emitted during it
     (the computed responses and any valid leader traffic of the new state), is reached by finitely many L1C steps -/
 theorem handleJ_in_StepJ (c0 : RQJ.Config) (s : SysJ N) (i : Fin N) (inp : InputJ N) (hen : enabledJ c0 s i inp)
-    (happ : s.applied i ≤ (s.l1.nodes i).commit) (outs : List (Msg1 N))
+    (happ : s.applied i ≤ (s.l1.nodes i).commit) (hcl : (s.l1.nodes i).commit ≤ (s.l1.nodes i).log.length) (outs : List (Msg1 N))
     (hout : ∀ m ∈ outs, m ∈ (handleJ c0 i (s.node i) inp).2 ∨ leaderOut (handleJ c0 i (s.node i) inp).1.n i m) :
     ∃ net', StepsJ c0 s (s.put i (handleJ c0 i (s.node i) inp).1 net') ∧ (∀ m, s.l1.net m → net' m) ∧ (∀ m ∈ outs, net' m) := by
-  obtain ⟨net1, st1, mono1, hr⟩ := handleJ_outcome c0 s i inp hen happ
+  obtain ⟨net1, st1, mono1, hr⟩ := handleJ_outcome c0 s i inp hen happ hcl
   obtain ⟨net2, st2, mono2, hl⟩ := sendJ_many c0 i outs (s.put i (handleJ c0 i (s.node i) inp).1 net1) (by
       intro m hm
       rw [put_l1_node]
@@ -527,7 +547,7 @@ theorem handleJ_in_StepJ (c0 : RQJ.Config) (s : SysJ N) (i : Fin N) (inp : Input
   refine ⟨net2, st1.trans ?_, fun m h => mono2 m (mono1 m h), hl⟩
   exact st2
 
-/-- runs of the executable config-aware handler: nodes driven only through `handleJ`, messages taken from what was emitted -/
+/-- runs of the executable joint-configuration handler: nodes driven only through `handleJ`, messages taken from what was emitted -/
 inductive RunJ (c0 : RQJ.Config) : SysJ N → Prop
 | init : RunJ c0 (initJ N)
 | call {s} (i : Fin N) (inp : InputJ N) (outs : List (Msg1 N)) : RunJ c0 s → enabledJ c0 s i inp →
@@ -552,7 +572,7 @@ theorem runJ_covered {c0 : RQJ.Config} {s : SysJ N} (r : RunJ c0 s) :
       | recv m => exact ⟨hnet m hen.1, hen.2.1, by rw [hn, ha, hp]; exact hen.2.2⟩
       | restart a => show a ≤ s1.applied i; rw [ha]; exact hen
       | _ => trivial
-    obtain ⟨net', st, mono, hin⟩ := handleJ_in_StepJ c0 s1 i inp hen1 (L1J_applied_le r1 i) outs (by rw [hnode]; exact hout)
+    obtain ⟨net', st, mono, hin⟩ := handleJ_in_StepJ c0 s1 i inp hen1 (L1J_applied_le r1 i) (L1J_commit_le r1 i) outs (by rw [hnode]; exact hout)
     refine ⟨_, reachJ_steps r1 st, ?_, ?_, ?_, ?_⟩
     · simp [SysJ.put, hn, hnode]
     · simp [SysJ.put, ha, hnode]
@@ -562,10 +582,12 @@ theorem runJ_covered {c0 : RQJ.Config} {s : SysJ N} (r : RunJ c0 s) :
       · exact mono m (hnet m hm)
       · exact hin m hm
 
-/-- **C15 under membership changes, for every run of the executable handler `handleJ`** — the function the lock-step engine replays
-    against etcd's `RawNode` on the member schedules: any cluster size, any initial configuration, any schedule of messages, ticks,
-    proposals, membership changes (add / remove / add-learner / promote), applications and restarts (inputs as `enabledJ` allows them):
-    election safety, log matching, leader completeness and state-machine safety, on the handler's own node states. -/
+/-- **C15 under single AND joint membership changes, for every run of the executable handler `handleJ`** — the function the lock-step
+    engine replays against etcd's `RawNode` on the member-joint schedules: any cluster size, any initial configuration, any schedule of
+    messages, ticks, proposals, membership changes (every `ConfChangeV2` shape: single change, `EnterJoint` explicit / auto-leave with
+    any list of changes, `LeaveJoint`; refused ones become empty entries), applications, `Advance`s (automatic leave) and restarts
+    (inputs as `enabledJ` allows them): election safety, log matching, leader completeness and state-machine safety, on the handler's
+    own node states. -/
 theorem runJ_safe {c0 : RQJ.Config} {s : SysJ N} (r : RunJ c0 s) :
     (∀ i j : Fin N, (s.l1.nodes i).role = .leader → (s.l1.nodes j).role = .leader → (s.l1.nodes i).term = (s.l1.nodes j).term → i = j) ∧
     (∀ (i j : Fin N) (k : Nat), 1 ≤ k → k ≤ (s.l1.nodes i).log.length → k ≤ (s.l1.nodes j).log.length →
